@@ -3,16 +3,18 @@
 
   SPEC layer: `Inv` (0 ≤ pos ≤ len), `occ` (the occurrences of a pattern; the search itself is C07),
               `specDecode` (what a token means on exactly the bits it consumed), Python list surgery.
-  ALG layer : `step : Stream → Op → Stream × Res`, every branch transcribed from
-              bitstream.py (read 293-357, readlist 359-382, readto 384-403, peek 413-430, peeklist 432-453,
-              bytealign 455-464, _setbitpos 120-126, _getbytepos/_setbytepos 110-118, find/rfind 233-283,
-              append 192-201, overwrite 211-231, __copy__ 136-144 / 607-612, __and__/__or__/__xor__/__add__ 146-190,
-              __getitem__ 481-488, BitStream.__iadd__/prepend/__setitem__/__delitem__/insert/replace 614-714, _clear 132-134),
-              bits.py (_read_dtype_list 1189-1224, _readlist 1167-1187, _validate_slice 1142-1148, __and__ 388-401,
-              __or__ 413-426, _imul 1125-1137, copy 1774-1778), dtypes.py (read_fn 291-317, get_dtype 320-337),
-              bitarray_.py (__setattr__ 123-137, _setitem_int 155-171, _replace 271-300, the in-place mutators).
+  ALG layer : `step : Stream → Op → Stream × Res`, every branch transcribed from (line numbers of /repo at 92f7435)
+              bitstream.py: _setbytepos/_getbytepos/_setbitpos 110-126, _clear 132-134, __copy__ 136-144 and 578-583,
+              __and__/__or__/__xor__/__add__ 146-203, find/rfind 205-255, read 265-329 (rollback 326-328), readlist 331-354,
+              readto 356-375, peek 385-402, peeklist 404-425, bytealign 427-436, __getitem__ 452-460,
+              BitStream.__setattr__ 585-593, __iadd__ 595-604, append 606-615, overwrite 617-639, prepend 641-649,
+              __setitem__ 651-656, __delitem__ 658-670, insert 672-694, replace 696-730;
+              bits.py: __and__ 393-406, __or__ 418-431, _imul 1137-1149, _validate_slice 1154-1160, _readlist 1179-1199,
+              _read_dtype_list 1201-1236, copy 1791-1795; dtypes.py: read_fn 291-320, get_dtype 323-342;
+              bitarray_.py: __setattr__ 131-145, _setitem_int 163-179, _replace 279-308 and the in-place mutators.
   The transcription is for states that satisfy `Inv`; `run` stops at the first state that does not (the harness
-  stops observing there too: the property is already broken).
+  stops observing there too: the property is already broken).  `Inv` is proved to be preserved (Props/C06 `inv_run`),
+  so on the code as it stands `run` never stops early.
 -/
 import BitstringModel.Model.Basic
 import BitstringModel.Model.C10
@@ -147,24 +149,26 @@ inductive DT where
   | stretchy (k : Kind)
   deriving Repr, DecidableEq
 
-/-- `Dtype(name, length)` → `DtypeDefinition.get_dtype` (dtypes.py:320-337): ValueError for a length that is not allowed. -/
+/-- `Dtype(name, length)` → `DtypeDefinition.get_dtype` (dtypes.py:323-342): ValueError for a length that is not
+    allowed, and for a negative one. -/
 def mkDtype (k : Kind) (n : Int) : Except Err RDT :=
-  if allowed k n then .ok (.fixed k (n * k.mult)) else .error .value
+  if !allowed k n then .error .value
+  else if n < 0 then .error .value
+  else .ok (.fixed k (n * k.mult))
 
 /-- `Dtype(token)`; an integer item of a readlist becomes `Dtype('bits', n)` (bits.py:1174-1175, 1184). -/
 def Tok.toDT : Tok → Except Err DT
-  | .count n => .ok (.known (.fixed .bits n))
+  | .count n => (mkDtype .bits n).map .known
   | .fixed k n => (mkDtype k n).map .known
   | .stretchy .bool => (mkDtype .bool 1).map .known       -- single allowed length: filled in by get_dtype
   | .stretchy k => .ok (.stretchy k)
   | .var v => .ok (.known (.var v))
 
-/-- `read_fn` of a fixed-length dtype (dtypes.py:293-301).  The single-allowed-length variant (`bool`)
-    slices without a length check, so a short slice surfaces from `get_fn` as ValueError. -/
-def readFixed (bits : Bits) (start : Int) (k : Kind) (bitlen : Int) : Except Err Val :=
-  if k = .bool then decode k (pySlice bits start (start + 1))
-  else if (bits.length : Int) < start + bitlen then .error .read
-  else decode k (pySlice bits start (start + bitlen))
+/-- `read_fn` of a fixed-length dtype (dtypes.py:293-304): both variants (one allowed length / a length argument)
+    check the remaining length first (ReadError), then `get_fn(bs[start:start + length])`. -/
+def readFixed (bits : Bits) (start : Int) (_k : Kind) (bitlen : Int) : Except Err Val :=
+  if (bits.length : Int) < start + bitlen then .error .read
+  else decode _k (pySlice bits start (start + bitlen))
 
 /-- `l[a:]` for a Python int `a`. -/
 def pyFrom {α} (l : List α) (a : Int) : List α :=
@@ -397,7 +401,7 @@ inductive Op where
   | append (b : Bits) | iadd (b : Bits) | appendSelf | iaddSelf
   | prepend (b : Bits) | prependSelf
   | insert (b : Bits) (p : Option Int) | insertSelf (p : Option Int)
-  | overwrite (b : Bits) (p : Option Int)
+  | overwrite (b : Bits) (p : Option Int) | overwriteSelf (p : Option Int)
   | setSlice (a b : Option Int) (v : Bits) | setIdxBits (i : Int) (v : Bits) | setIdxInt (i : Int) (v : Int)
   | delSlice (a b c : Option Int) | delIdx (i : Int)
   | replace (old new : Bits) (start stop : Option Int) (count : Option Int) (aligned : Bool)
@@ -426,7 +430,7 @@ inductive Res where
 
 def Op.isMutator : Op → Bool
   | .append _ | .iadd _ | .appendSelf | .iaddSelf | .prepend _ | .prependSelf | .insert _ _ | .insertSelf _
-  | .overwrite _ _ | .setSlice _ _ _ | .setIdxBits _ _ | .setIdxInt _ _ | .delSlice _ _ _ | .delIdx _
+  | .overwrite _ _ | .overwriteSelf _ | .setSlice _ _ _ | .setIdxBits _ _ | .setIdxInt _ _ | .delSlice _ _ _ | .delIdx _
   | .replace _ _ _ _ _ _ | .replaceSelf _ _ _ _ _ | .clear | .setProp _ | .setUint _ | .mutate _ | .imul _ => true
   | _ => false
 
@@ -458,12 +462,20 @@ def insertAt (s : Stream) (b : Bits) (p : Option Int) : Stream × Res :=
     ({ s with bits := s.bits.take q.toNat ++ b ++ s.bits.drop q.toNat, pos := q + b.length }, .unit)
   else (s, .err .value)
 
+/-- `BitStream.overwrite`: the slice `[q, q + len(bs))` is assigned (the bitstring grows when that runs past the end). -/
+def overwriteAt (s : Stream) (b : Bits) (p : Option Int) : Stream × Res :=
+  if b.isEmpty then (s, .unit) else
+  let q := p.getD s.pos
+  let q := if q < 0 then q + s.len else q
+  if q < 0 ∨ q > s.len then (s, .err .value) else
+  ({ s with bits := s.bits.take q.toNat ++ b ++ s.bits.drop (q.toNat + b.length), pos := q + b.length }, .unit)
+
 def replaceWith (s : Stream) (old new : Bits) (start stop : Option Int) (count : Option Int) (aligned : Bool) : Stream × Res :=
-  if count = some 0 then (s, .val (.int 0)) else
   if old.isEmpty then (s, .err .value) else
   match validateSlice s.bits.length start stop with
   | .error e => (s, .err e)
   | .ok (a, b) =>
+    if count = some 0 then (s, .val (.int 0)) else
     let limit : Nat := match count with
       | some c => if c > 0 then c.toNat else 0
       | none => 0
@@ -526,12 +538,8 @@ def stepCore (s : Stream) (op : Op) : Stream × Res :=
   | .prependSelf => ({ s with bits := s.bits ++ s.bits, pos := 0 }, .unit)
   | .insert b p => insertAt s b p
   | .insertSelf p => insertAt s s.bits p
-  | .overwrite b p =>
-    if b.isEmpty then (s, .unit) else
-    let q := p.getD s.pos
-    let q := if q < 0 then q + s.len else q
-    if q < 0 ∨ q > s.len then (s, .err .value) else
-    ({ s with bits := s.bits.take q.toNat ++ b ++ s.bits.drop (q.toNat + b.length), pos := q + b.length }, .unit)
+  | .overwrite b p => overwriteAt s b p
+  | .overwriteSelf p => overwriteAt s s.bits p               -- `bs is self → bs = self._copy()`
   | .setSlice a b v => (afterLenChange s (pySetSlice s.bits a b v), .unit)
   | .setIdxBits i v =>
     let j := if i < 0 then i + s.len else i
@@ -553,7 +561,7 @@ def stepCore (s : Stream) (op : Op) : Stream × Res :=
   | .replaceSelf old a b c al => replaceWith s old s.bits a b c al
   | .clear => ({ s with bits := [], pos := 0 }, .unit)
   | .setProp none => (s, .err .value)
-  | .setProp (some nb) => ({ s with bits := nb }, .unit)        -- __setattr__ replaces _bitstore only: pos is left alone
+  | .setProp (some nb) => (afterLenChange s nb, .unit)          -- BitStream.__setattr__: pos = 0 iff the length changed
   | .setUint v =>
     let n := s.bits.length
     if n = 0 then (s, .err .value) else
@@ -578,14 +586,20 @@ def stepCore (s : Stream) (op : Op) : Stream × Res :=
   | .lshift n | .rshift n => if n < 0 ∨ s.bits.isEmpty then (s, .err .value) else (s, .ret (.new 0))
   | .band b | .bor b | .bxor b => if b.length ≠ s.bits.length then (s, .err .value) else (s, .ret (.new 0))
   | .andSelf | .orSelf =>
-    -- Bits.__and__: `if bs is self: return self.copy()`; ConstBitStream.__and__ then does `s._pos = 0` on it
-    if s.mutable then (s, .ret (.new 0)) else ({ s with pos := 0 }, .ret .self)
+    -- Bits.__and__: `if bs is self: return self.copy()` (= self for ConstBitStream); ConstBitStream.__and__ then
+    -- takes `copy.copy(self)` (a new object) when it got `self` back, and sets `_pos = 0` on the result
+    (s, .ret (.new 0))
   | .xorSelf => (s, .ret (.new 0))
   | .query q => (s, runQuery s q)
 
 /-- One operation.  ConstBitStream has none of the mutators (not generated by the harness). -/
 def step (s : Stream) (op : Op) : Stream × Res :=
   if op.isMutator && !s.mutable then (s, .err .type) else stepCore s op
+
+/-- `ConstBitStream.__init__` (bitstream.py:103-107): a negative `pos` counts from the end; outside 0..len → CreationError. -/
+def initPos (len : Nat) (p : Int) : Except Err Int :=
+  let q := if p < 0 then p + len else p
+  if q < 0 ∨ q > len then .error .value else .ok q
 
 /-! ## histories -/
 
@@ -595,51 +609,6 @@ def run : Stream → List Op → List (Stream × Res)
   | s, op :: rest =>
     let (s', r) := step s op
     if Inv s' then (s', r) :: run s' rest else [(s', r)]
-
-/-! ## the regions of the recorded findings (decidable, same names as in harness/props/C06.py REGIONS) -/
-
-/-- A token list with a negative integer count (readlist / peeklist do not reject it). -/
-def negCountList (ts : List Tok) : Bool := ts.any fun t => match t with | .count n => decide (n < 0) | _ => false
-
-/-- A `bool` token (the single-allowed-length read_fn has no length check). -/
-def Tok.isBool : Tok → Bool
-  | .fixed .bool _ => true
-  | .stretchy .bool => true
-  | _ => false
-
-def readlist_negative_count (_ : Stream) (op : Op) : Bool :=
-  match op with
-  | .readlist ts | .peeklist ts => negCountList ts
-  | _ => false
-
-def single_length_short_read (s : Stream) (op : Op) : Bool :=
-  match op with
-  | .read t | .peek t => t.isBool && decide (s.pos ≥ s.len)
-  | .readlist ts | .peeklist ts => ts.any Tok.isBool
-  | _ => false
-
-def property_assignment_shrinks (s : Stream) (op : Op) : Bool :=
-  match op with
-  | .setProp (some nb) => decide ((nb.length : Int) < s.pos)
-  | _ => false
-
-def const_and_or_self (s : Stream) (op : Op) : Bool :=
-  match op with
-  | .andSelf | .orSelf => !s.mutable && decide (s.pos ≠ 0)
-  | _ => false
-
-/-- The two regions in which the position can leave 0..len. -/
-def invSafe (s : Stream) (op : Op) : Bool :=
-  !(readlist_negative_count s op || property_assignment_shrinks s op)
-
-/-- A history none of whose steps (from the state it is applied to) lies in a region that can break `Inv`. -/
-def safeRun : Stream → List Op → Bool
-  | _, [] => true
-  | s, op :: rest => invSafe s op && safeRun (step s op).1 rest
-
-/-- Outside every recorded region. -/
-def safe (s : Stream) (op : Op) : Bool :=
-  !(readlist_negative_count s op || single_length_short_read s op || property_assignment_shrinks s op || const_and_or_self s op)
 
 /-! ## driver -/
 
@@ -713,6 +682,7 @@ def opOfStr? (f : String) : Option Op :=
   | ["insert", b, p] => do some (.insert (← bitsOfStr? b) (← optIntOfStr? p))
   | ["insertself", p] => (optIntOfStr? p).map .insertSelf
   | ["overwrite", b, p] => do some (.overwrite (← bitsOfStr? b) (← optIntOfStr? p))
+  | ["overwriteself", p] => (optIntOfStr? p).map .overwriteSelf
   | ["setslice", a, b, v] => do some (.setSlice (← optIntOfStr? a) (← optIntOfStr? b) (← bitsOfStr? v))
   | ["setidx", i, v] => do some (.setIdxBits (← i.toInt?) (← bitsOfStr? v))
   | ["setidxint", i, v] => do some (.setIdxInt (← i.toInt?) (← v.toInt?))
@@ -787,6 +757,14 @@ def handle (args : List String) : String :=
         | none => false
       "ok " ++ "|".intercalate (obsAll b tr) ++ (if halted then "|!" else "")
     | _, _, _, _ => "bad-op"
+  | "init" :: cls :: bits :: pos :: _ =>
+    match Cls.ofStr? cls, bitsOfStr? bits, pos.toInt? with
+    | some c, some b, some p =>
+      if !c.hasPos then "bad-op" else
+      match initPos b.length p with
+      | .ok q => "ok " ++ toString q
+      | .error _ => "err"
+    | _, _, _ => "bad-op"
   | _ => "bad-op"
 
 end BM.C06
